@@ -1,5 +1,6 @@
 import KoordVerif.Common.Proto
 import KoordVerif.Model.C12
+import KoordVerif.Model.C12Static
 /-
 Driver for C12.  One case = one history on one cgroup tree:
   tree <res> <v2> <n> <parent_0..parent_{n-1}> <old_0..old_{n-1}>
@@ -13,6 +14,10 @@ Second kind of case (harness `nonepolicy`, applyCPUSetWithNonePolicy on the BE c
   be <n> <parent_0..parent_{n-1}> <old_0..old_{n-1}>              (bitmasks)
   none <expired> <cpus> <oldCPUSet> <m> <path_0..path_{m-1}>      paths = dirs in walk order
 Output per `none` line: `w <node> <value>` …, then `st …`.
+  sup <kind> <expired> <cpus> <oldCPUSet> <rec> <m> <path_0..path_{m-1}>
+      applyBESuppressCPUSet; kind: 0 NodeTopo nil, 1 policy annotation unparsable, 2 static, 3 none/other;
+      rec = calcBECPUSet result (bitmask), -1 = it failed; dir depths are derived from the `be` parents.
+Output per `sup` line: as for `none`, with a line `err` before `st` for kinds 0 and 1.
 -/
 namespace KoordVerif.C12
 open KoordVerif.Proto
@@ -78,10 +83,27 @@ def runLines {α} (R : Run α) (n : Nat) : St α → List String → List String
       | none => ["bad-op"]
     | _ => ["bad-op"]
 
-def runNoneLines (n : Nat) : St Nat → List String → List String
+def parentFn (ps : List Int) : Nat → Option Nat := fun i =>
+  match ps[i]? with
+  | some p => if p < 0 then none else some p.toNat
+  | none => none
+
+def runNoneLines (n : Nat) (depth : Nat → Nat) : St Nat → List String → List String
   | _, [] => []
   | s, line :: rest =>
     match toks line with
+    | "sup" :: ts =>
+      match ints? ts with
+      | some (kind :: expired :: cpus :: old :: rec :: m :: ps) =>
+        if kind < 0 || cpus < 0 || old < 0 || rec < -1 || m < 0 || ps.length ≠ m.toNat || ps.any (fun p => p < 0 || p ≥ n) then ["bad-op"] else
+        let r := applyBESuppress kind.toNat (expired ≠ 0) (ps.map Int.toNat) depth
+                   (if rec < 0 then none else some rec.toNat) cpus.toNat old.toNat s
+        let vals := (List.range n).map r.1.files
+        let s' : St Nat := { files := listFn 0 vals, cache := listFn none ((List.range n).map r.1.cache), skip := [] }
+        -- kinds 0/1: applyBESuppressCPUSet returns an error before anything is written
+        r.2.map (fun w => s!"w {w.1} {w.2}") ++ (if kind ≤ 1 then ["err"] else []) ++ ["st " ++ showNats vals] ++
+          runNoneLines n depth s' rest
+      | _ => ["bad-op"]
     | "none" :: ts =>
       match ints? ts with
       | some (expired :: cpus :: old :: m :: ps) =>
@@ -89,7 +111,7 @@ def runNoneLines (n : Nat) : St Nat → List String → List String
         let r := nonePolicy (expired ≠ 0) (ps.map Int.toNat) cpus.toNat old.toNat s
         let vals := (List.range n).map r.1.files
         let s' : St Nat := { files := listFn 0 vals, cache := listFn none ((List.range n).map r.1.cache), skip := [] }
-        r.2.map (fun w => s!"w {w.1} {w.2}") ++ ["st " ++ showNats vals] ++ runNoneLines n s' rest
+        r.2.map (fun w => s!"w {w.1} {w.2}") ++ ["st " ++ showNats vals] ++ runNoneLines n depth s' rest
       | _ => ["bad-op"]
     | _ => ["bad-op"]
 
@@ -107,12 +129,14 @@ def runCase (lines : List String) : List String :=
       match nats? ts with
       | some (n :: vals) =>
         if vals.length ≠ 2 * n then ["bad-op"] else
-        runNoneLines n { files := listFn 0 (vals.drop n), cache := fun _ => none, skip := [] } rest
+        runNoneLines n (depthOf (parentFn ((vals.take n).map Int.ofNat)) n)
+          { files := listFn 0 (vals.drop n), cache := fun _ => none, skip := [] } rest
       | _ => match ints? ts with
         | some (n :: vals) =>
           -- parents use -1 for the root
           if n < 0 || vals.length ≠ 2 * n.toNat || (vals.drop n.toNat).any (· < 0) then ["bad-op"] else
-          runNoneLines n.toNat { files := listFn 0 ((vals.drop n.toNat).map Int.toNat), cache := fun _ => none, skip := [] } rest
+          runNoneLines n.toNat (depthOf (parentFn (vals.take n.toNat)) n.toNat)
+            { files := listFn 0 ((vals.drop n.toNat).map Int.toNat), cache := fun _ => none, skip := [] } rest
         | _ => ["bad-op"]
     | "tree" :: ts =>
       match ints? ts with
